@@ -438,3 +438,25 @@ def record_call(cl, helper):
     if not isinstance(lab, ast.Constant):
         return None
     return str(lab.value), [ast.unparse(b[p_]) for p_ in params if p_ != params[li] and p_ in b]
+
+
+def bind_method_call(P, cls, call):
+    """{parameter name: argument expression} for a call `self.m(...)` / `Class.m(...)` of a method of cls (positional and keyword),
+    None if the callee cannot be resolved"""
+    f = call.func
+    if not isinstance(f, ast.Attribute):
+        return None
+    hit = P.lookup(cls, f.attr)
+    if not hit or hit[1] != 'method':
+        return None
+    fn = hit[2]
+    params = [a.arg for a in fn.args.args]
+    if f.attr not in hit[0].static and params[:1] == ['self']:
+        params = params[1:]
+    out = {}
+    for p_, a in zip(params, call.args):
+        out[p_] = a
+    for kw in call.keywords:
+        if kw.arg:
+            out[kw.arg] = kw.value
+    return out
